@@ -161,10 +161,11 @@ Fixpoint score_pairs (args : list bytes) : pairs_res :=
   | s :: rest =>
     match pf s with
     | None => PairsErr
-    | Some _ => match rest with
-                | [] => PairsPanic
-                | _ :: rest' => score_pairs rest'
-                end
+    | Some x => if f_isnan x then PairsErr     (* "a NaN score can not be ordered": rejected *)
+                else match rest with
+                     | [] => PairsPanic
+                     | _ :: rest' => score_pairs rest'
+                     end
     end
   end.
 
